@@ -621,6 +621,17 @@ fn djb(bytes: &[u8]) -> u32 {
 pub fn run(t: &[&str]) -> String {
     match t[0] {
         "c17.index" => run_index(t),
+        "c17.findzero" => {
+            let b = hex(t[2]);
+            match DebugCuIndex::new(&b, endian(t[1])).index() {
+                Ok(ix) => match ix.find(0) {
+                    None => "ok none".to_string(),
+                    // id 0 marks an unused slot: it is not an entry of the table
+                    Some(r) => format!("lookup-mismatch find(0)=Some({})", r),
+                },
+                Err(e) => err(&e),
+            }
+        }
         "c17.pkg" => run_pkg(t),
         "c17.names" => run_names(t),
         "c17.aranges" => run_aranges(t),
